@@ -31,7 +31,8 @@ LIB_CRATES = [p.replace("-", "_") for p in LIB_PKGS]
 # configurations: name -> (cargo args, expected crates)
 CONFIGS = {
     "libs-all": (sum([["-p", p] for p in LIB_PKGS], []) + ["--all-features"], LIB_CRATES),
-    "libs-default": (sum([["-p", p] for p in LIB_PKGS], []), LIB_CRATES),
+    # the library crates as unified by the facade crate's `full` feature (what a user of `jsonrpsee = { features = ["full"] }` compiles)
+    "facade-full": (["-p", "jsonrpsee", "--features", "full"], LIB_CRATES),
 }
 
 
